@@ -52,8 +52,9 @@ def run_rows(ctx, name, recs, texts_path, mode, excl="", violation=True, shards=
         ctx.note("%s: %d patterns of the space did not compile, e.g. %s (%s)" % (name, len(odd), odd[0]["pat"], odd[0]["ek"]))
     if violation:
         for j in rejects:
-            ctx.violation("pattern %s: cell %s expected by RefSem but not produced; cell %s produced but not allowed (row = [text#, byte offset, status, caps...])"
-                          % (j["pat"], j["expected_not_logged"], j["logged_not_expected"]),
+            ref = "the design model (Compile.tla program run by VM.tla; pattern of the class of finding F1)" if j.get("design") else "RefSem"
+            ctx.violation("pattern %s: cell %s expected by %s but not produced; cell %s produced but not allowed (row = [text#, byte offset, status, caps...])"
+                          % (j["pat"], j["expected_not_logged"], ref, j["logged_not_expected"]),
                           dict(kind="rows", space=name, mode=mode, texts=texts_path, ast=j["ast"], base=j.get("base"), ng=j["ng"], pat=j["pat"],
                                expected_not_logged=j["expected_not_logged"], logged_not_expected=j["logged_not_expected"]))
     if violation:
